@@ -3,7 +3,7 @@
 P=$1; T=$2; shift 2
 git -C /repo apply "$P" || { echo "patch does not apply"; exit 3; }
 for id in "$@"; do
-  /verif/check $id $T > /tmp/try_$id.log 2>&1; rc=$?
+  timeout 1000 /verif/check $id $T > /tmp/try_$id.log 2>&1; rc=$?
   echo "== $id rc=$rc: $(grep -m1 -E 'VIOLATION|HARNESS-ERROR' /tmp/try_$id.log | cut -c1-300)"; grep -A1 -m1 VIOLATION /tmp/try_$id.log | tail -1 | cut -c1-300
 done
 git -C /repo checkout -- .
